@@ -27,7 +27,7 @@ class C10(Prop):
     floors = {'quick': (200, 60), 'thorough': (4000, 1000)}
     must_reach = ['abstract_online_interpreter:AbstractOnlineInterpreter.reset']
     quick_cases = 1500
-    thorough_cases = 200000
+    thorough_cases = 600000
     shrink_data = False
 
     def gen_dense(self, rng):
